@@ -96,6 +96,11 @@ var trUnits = []trUnit{
 			"config.Server.Schedule": "ext.schedule", "config.Server.Continuous": "ext.continuous"},
 		callExt: map[string]string{"user.New": "userNew", "net.LookupIP": "lookupIP"},
 		funcs:   []string{"Server.backgroundCanSSH", "Server.Callback"}},
+	{ns: "Conn", pkgDir: "internal/server",
+		structs: map[string][]string{"stats": {"currentConnections", "lifetimeConnections"}},
+		skip:    []string{"s.mutex.Lock", "s.mutex.Unlock", "s.logServerStats"},
+		subst:   map[string]string{"config.Server.MaxConnections": "ext.maxConnections"},
+		funcs:   []string{"stats.incrementConnections", "stats.decrementConnections", "stats.serverLimitExceeded"}},
 	{ns: "Brush", pkgDir: "internal/color/brush", panics: true,
 		structs:     map[string][]string{},
 		appendCalls: map[string]int{"color.PaintWithAttr": 1},
@@ -815,6 +820,9 @@ func (f *trFn) stmt1(ind string, s ast.Stmt, next cont) string {
 	case *ast.DeferStmt:
 		if strings.HasPrefix(src(st.Call.Fun), "pool.Recycle") {
 			return next(ind) // giving a buffer back to its pool is not part of the value
+		}
+		if contains(f.p.unit.skip, src(st.Call.Fun)) {
+			return next(ind) // a deferred effect outside the translated state (unlocking, logging)
 		}
 	case *ast.DeclStmt:
 		gd := st.Decl.(*ast.GenDecl)
